@@ -5,6 +5,7 @@ package c05
 
 import (
 	"context"
+	"errors"
 	"encoding/binary"
 	"fmt"
 
@@ -41,6 +42,8 @@ type kindDef struct {
 	Parent    string // nested records: type of the parent document
 	Container string
 }
+
+var errInjected = errors.New("injected storage failure")
 
 var recKinds = []kindDef{
 	{Name: "Doc", Code: 1},
@@ -123,6 +126,8 @@ type rig struct {
 
 	recording bool
 	calls     []kit.Call
+	// fault injection, see top.Before
+	failPLogWrite bool
 
 	// the second node: another app-structs instance on the SAME backend with its own istoragecache (cached
 	// backend) and its own PLog cache - another writer on the shared storage, underneath the first node's caches
@@ -200,6 +205,14 @@ func newRig(backend string, trust int) (*rig, error) {
 		r.mid = c
 	}
 	r.top = &kit.Wrap{Inner: r.mid}
+	r.top.Before = func(c *kit.Call) kit.Verdict {
+		// fault injection: the next write into the PLog view fails before it has any effect
+		if r.failPLogWrite && (c.Op == "Put" || c.Op == "InsertIfNotExists") && len(c.PKey) >= 2 && binary.BigEndian.Uint16(c.PKey) == viewPLog {
+			r.failPLogWrite = false
+			return kit.Verdict{FailBefore: errInjected}
+		}
+		return kit.Verdict{}
+	}
 	r.top.After = func(c *kit.Call) {
 		if r.recording {
 			r.calls = append(r.calls, *c)
